@@ -45,6 +45,8 @@ func main() {
 		attach(a, res)
 	case "complete":
 		complete(a, res)
+	case "fsforge":
+		fsforge(a, res)
 	default:
 		hx.Fatal("unknown subcommand %s", cmd)
 	}
@@ -468,6 +470,7 @@ type forger struct {
 	fake   *big.Int
 	commit *rangeproof.ProofCommit
 	zero   *big.Int // non-nil: the commitments C_i of the range proof are this representative of 0 mod n, and zeros are hashed
+	nsq    int      // number of squares of the statement
 }
 
 func (f *forger) Commit(r map[string]*big.Int) ([]*big.Int, error) {
@@ -486,9 +489,15 @@ func (f *forger) Commit(r map[string]*big.Int) ([]*big.Int, error) {
 	}
 	f.commit = commit
 	if f.zero != nil {
-		// every commitment the verifier reconstructs from a range proof with C_i = 0 mod n is 0
-		for range contrib {
-			l = append(l, big.NewInt(0))
+		// every commitment the verifier reconstructs from a range proof with C_i = 0 mod n is 0; if the challenge also covers the
+		// C_i themselves (2n+1 contributions instead of n+1), they are hashed as they are sent
+		nsq := (len(contrib) - 1) / 2
+		for i := range contrib {
+			if len(contrib) > f.nsq+1 && i < nsq {
+				l = append(l, new(big.Int).Set(f.zero))
+			} else {
+				l = append(l, big.NewInt(0))
+			}
 		}
 		return l, nil
 	}
@@ -707,7 +716,7 @@ func runAttach(w *world, res *hx.Result, c *acase, raw json.RawMessage, cred1 *g
 				aux.failed = true
 				break
 			}
-			f := &forger{DisclosureProofBuilder: inner, idx: zat, st: st, fake: big.NewInt(int64(c.M2))}
+			f := &forger{DisclosureProofBuilder: inner, idx: zat, st: st, fake: big.NewInt(int64(c.M2)), nsq: c.S2.N}
 			if c.Host == "forgez" {
 				// representatives of 0 mod n: 0, n, -n, 2n
 				f.zero = []*big.Int{big.NewInt(0), pk.N, new(big.Int).Neg(pk.N), new(big.Int).Lsh(pk.N, 1)}[(c.M2+zat+c.S2.N)%4]
